@@ -165,28 +165,38 @@ def float_job(job):
     return ev
 
 
-def arm_from(S, Mlist, G, masses, limits=None):
-    """an Arm built through the public setters from chain data (identity base)"""
+def unit3(rng):
+    v = np.array([rng.gauss(0, 1) for _ in range(3)])
+    return v / np.linalg.norm(v)
+
+
+def arm_from(S, Mlist, G, masses, limits=None, base=None):
+    """an Arm built through the public setters from chain data given in the arm's own base frame; with `base` the arm
+    stands on that pose: the constructor takes the base-local screws / tool home, the setters the global link frames
+    (the first link transform then starts at the world origin: base * M_1)"""
     from basic_robotics.general import tm
     from basic_robotics.kinematics import Arm
     n = S.shape[1]
     home = np.eye(4)
     link_homes = []
+    B = np.eye(4) if base is None else np.asarray(base, dtype=float)
+    Mlist = [np.array(m, dtype=float) for m in Mlist]
     for i, m in enumerate(Mlist):
         home = home @ m
         if i < n:
-            link_homes.append(tm(home.copy()))
+            link_homes.append(tm(B @ home))
     axes = S[:3, :].copy()
     pts = np.zeros((3, n))
     for i in range(n):
         w, v = S[:3, i], S[3:, i]
         if np.linalg.norm(w) > 0:
             pts[:, i] = np.cross(w, v)
+    Mg = [B @ Mlist[0]] + Mlist[1:]
     with quiet():
-        arm = Arm(tm(), S.copy(), tm(home.copy()), pts, axes)
+        arm = Arm(tm(B.copy()), S.copy(), tm(home.copy()), pts, axes)
         arm.setJointProperties(np.ones(n) * -2 * PI, np.ones(n) * 2 * PI)
         arm.setOrigins(link_homes_global=link_homes)
-        arm.setMassProperties(np.array(masses, dtype=float), [tm(np.array(m, dtype=float)) for m in Mlist], np.array(G, dtype=float))
+        arm.setMassProperties(np.array(masses, dtype=float), [tm(np.array(m, dtype=float)) for m in Mg], np.array(G, dtype=float))
     return arm
 
 
@@ -214,9 +224,26 @@ def arm_part(L, rows, rng, n_float):
         v = lambda s: np.array([rng.uniform(-s, s) for _ in range(n)])
         cases.append(("float|n=%d" % n, c["S"], c["M"], c["G"], c["masses"], v(PI), v(2), v(3), np.array([rng.uniform(-10, 10) for _ in range(3)]),
                       np.array([rng.uniform(-10, 10) for _ in range(6)]), None, {"n": n}))
-    for reg, S, Ml, G, masses, th, dq, ddq, g, F, exact, case in cases:
+    placed = []
+    forced = set()
+    for k, cs in enumerate(cases):          # every third arm also stands on a random base pose (same chain, moved rigidly)
+        must = cs[0] in ("float|n=6", "lattice|n=3") and sum(1 for f in forced if f[0] == cs[0]) < 2
+        if must:
+            forced.add((cs[0], k))
+        if k % 3 == 0 or (cs[0] in ("float|n=6", "lattice|n=3") and sum(1 for f in forced if f[0] == cs[0]) <= 2 and (cs[0], k) in forced):
+            B = rf.taa_to_tm([rng.uniform(-2, 2) for _ in range(3)] + list(unit3(rng) * rng.uniform(0.2, 2.5)))
+            reg, S, Ml, G, masses, th, dq, ddq, g, F, exact, case = cs
+            Sg = rf.adjoint(B) @ S
+            Mlg = np.array([B @ np.array(Ml[0], dtype=float)] + [np.array(m, dtype=float) for m in Ml[1:]])
+            placed.append((reg.replace("|", "|placed|", 1), Sg, Mlg, G, masses, th, dq, ddq, g, F, None, dict(case, base=B.tolist()), (S, Ml, B)))
+    for cs in cases + placed:
+        reg, S, Ml, G, masses, th, dq, ddq, g, F, exact, case = cs[:12]
         n = S.shape[1]
-        arm = arm_from(S, Ml, G, masses)
+        if len(cs) > 12:
+            S0, Ml0, B = cs[12]
+            arm = arm_from(S0, Ml0, G, masses, base=B)          # S, Ml below: the same chain in world coordinates (the oracle's view)
+        else:
+            arm = arm_from(S, Ml, G, masses)
         ref_tau = np.asarray(fmr.InverseDynamics(C(th), C(dq), C(ddq), C(g), C(F), C(Ml), C(G), C(S)), dtype=float).reshape(n)
         ref_M = np.asarray(fmr.MassMatrix(C(th), C(Ml), C(G), C(S)), dtype=float)
         st, sm = max(1.0, float(np.abs(ref_tau).max())), max(1.0, float(np.abs(ref_M).max()))
@@ -271,6 +298,8 @@ def run(ctx):
     for law in ("D4 Arm.inverseDynamics agrees", "D4 Arm.inverseDynamicsEMR agrees", "D4 Arm.inverseDynamicsC agrees", "Arm.massMatrix = MassMatrix"):
         L.require(law, "float|n=6", 2)
         L.require(law, "lattice|n=3", 2)
+        L.require(law, "float|placed|n=6", 2)
+        L.require(law, "lattice|placed|n=3", 2)
     with ctx.timed("lawtrace"):
         L.decide(ctx, tag="c08")
     ctx.sample({"exact_case": {k: r.json[7][k] for k in ("c", "case", "tau", "mass", "cvec", "gvec", "ftip")}})
